@@ -297,6 +297,13 @@ func (g *G) mapping(mergeSort string, plan []ent) *yaml.Node {
 			if len(srcs) > 1 {
 				g.feat("merge-multi")
 			}
+			if g.coin("mergeseq-selfref", 8) {
+				// an anchored merge-value sequence that refers back to itself: a merge cycle
+				// through a sequence, which must be tolerated (it contributes nothing)
+				v.Anchor = g.newAnchor()
+				v.Content = append(v.Content, AliasNode(v))
+				g.feat("merge-cycle-through-sequence")
+			}
 		}
 		n.Content = append(n.Content, MergeKey(), v)
 	}
